@@ -42,7 +42,7 @@ def repair_main(argv):
 
 def run(oc, tier, seed, model_available, escalate):
     rng = random.Random(seed * 49999 + 15)
-    n = 24 if tier == "quick" else 300
+    n = 80 if tier == "quick" else 1500
     if escalate:
         n *= 2
     d = os.path.join(common.scratch(), "c15")
